@@ -1515,7 +1515,13 @@ def gen_fn_templates(src, attempt, match_template, tokenize, tags=None):
             text = src(tpl[tag]['path'])
             names = sorted(tpl[tag]['fns'])
             for n in names:
-                sig, body = find_fn(text, n)
+                if n.startswith('@'):
+                    k = text.find(n[1:])
+                    if k < 0:
+                        raise Untranslatable("%s: `%s` not found" % (tpl[tag]['path'], n[1:]))
+                    body = text[k:]
+                else:
+                    sig, body = find_fn(text, n)
                 toks = [t[1] for t in tokenize(body)]
                 match_template(toks, tpl[tag]['fns'][n], '%s:%s' % (tpl[tag]['path'].split('/')[-1], n))
             return "Definition %s_fns_matched : list (list N) := [%s]." % (tag, '; '.join(coq_str(n) for n in names))
